@@ -120,6 +120,22 @@ register('C09',
          'DESIGN.md 5/C09')
 
 
+register('C20',
+         'Rng.tla models the framing of every generator (words -> bytes -> cut to ceil(n/8) bytes -> clear excess bits -> '
+         'integer) with the four truncation styles found in rng.py; TLC proves three of them stay below 2^n for every buffer '
+         'and refutes the fourth (TruncLcgRand masks byte 0 of a little-endian buffer: known finding D5). java.util.Random and '
+         'new BigInteger(numBits, rnd) are specified on 12-bit limbs and TLC checks the specification reproduces the output of '
+         'the real JDK 17 (regenerated at run time) before it judges rng.JavaRandom byte for byte; the truncated LCG is '
+         'specified from its recurrence and recomputed by TLC for state sizes 4..14 bits. Every registry generator is replayed '
+         'for n in 1..130 and around every multiple of 8/32/64 up to 2048 (all n thorough) with two seeds and unseeded; purity '
+         'under interleaved calls for every seedable generator.',
+         'Trusted: TLC, the JDK, hashlib digests for purity, Python-int reference recurrence for registry-size truncated LCGs. '
+         'urandom and subsetsum* cannot be seeded by construction (range clause only). D5 is a known finding (repair would break '
+         'the pinned rng_test.testTruncLcg).',
+         'TLA+ spec (Rng.tla: framing invariant, java.util.Random on limbs, truncated LCG) model-checked with TLC + replay of every registry generator + TLC trace validation',
+         'DESIGN.md 5/C20')
+
+
 def main():
   props = [json.loads(l)['id'] for l in open(os.path.join(HOME, 'properties.jsonl'))]
   checks = []
